@@ -14,5 +14,11 @@ import (
 
 // Sentence matches the given parser until the end of input
 func Sentence(p parsley.Parser) *Sequence {
-	return SeqOf(p, parser.End()).Bind(interpreter.Select(0))
+	return SeqOf(p, sentenceEnd{parser.End()}).Bind(interpreter.Select(0))
+}
+
+// sentenceEnd marks the End parser of a Sentence: every result of a sentence ends with it, so the sequence
+// may stop at the first complete match (only the first parse tree is used anyway)
+type sentenceEnd struct {
+	parser.Func
 }
